@@ -1089,4 +1089,199 @@ Proof.
       apply (general_path_correct v start stop val A fs fc R); auto; lia.
 Qed.
 
+(* ------------------------------------------------------------------ operation sequences *)
+
+Notation apply_op := (apply_op zero).
+Notation run_ops := (run_ops zero).
+Notation fa_apply := (fa_apply B zero).
+Notation fa_run := (fa_run B zero).
+
+Lemma bslice_chunk : forall (v : bvec) a b, wf v ->
+  wfc (as_chunk None (bslice v a b)) /\
+  cflat (as_chunk None (bslice v a b)) = fa_slice (flat v) a b.
+Proof.
+  intros v a b Hv. destruct (bslice_correct v a b Hv) as [H1 [H2 H3]].
+  split; [constructor; exact H1|]. unfold as_chunk. rewrite cflat_nest, <- flat_flatl. exact H2.
+Qed.
+
+Lemma set_slice_step : forall (v : bvec) a b (val : chunk), wf v -> wfc val ->
+  wf (or_unchanged v (set_slice v a b val)) /\
+  flat (or_unchanged v (set_slice v a b val)) =
+    or_same B (flat v) (fa_set_slice (flat v) a b (cflat val)).
+Proof.
+  intros v a b val Hv Hval. pose proof (set_slice_correct v a b val Hv Hval) as H.
+  destruct (fa_set_slice (flat v) a b (cflat val)) as [l'|].
+  - destruct H as [v' [H1 [H2 H3]]]. rewrite H1. cbn [or_unchanged or_same]. auto.
+  - rewrite H. cbn [or_unchanged or_same]. auto.
+Qed.
+
+Lemma apply_op_correct : forall (v : bvec) (o : op B), wf v -> op_ok o ->
+  wf (apply_op v o) /\ flat (apply_op v o) = fa_apply (flat v) (abs_op o).
+Proof.
+  intros v o Hv Hok. destruct o as [val | off sym x | a b val | off val | dst a b | a b];
+    cbn [ByteVecModel.apply_op abs_op ByteVecSpec.fa_apply op_ok] in *.
+  - destruct (append_correct v val Hv Hok) as [H1 [H2 _]]. auto.
+  - destruct (set_byte_correct v off sym x Hv) as [v' [H1 [H2 H3]]]. rewrite H1. cbn [or_unchanged]. auto.
+  - apply set_slice_step; assumption.
+  - unfold set_word, ByteVecModel.set_word. apply set_slice_step; assumption.
+  - destruct (bslice_chunk v a b Hv) as [H1 H2]. rewrite <- H2. apply set_slice_step; assumption.
+  - destruct (bslice_chunk v a b Hv) as [H1 H2].
+    destruct (append_correct v _ Hv H1) as [H3 [H4 _]]. rewrite H4, H2. auto.
+Qed.
+
+Lemma fold_ops_correct : forall (ops : list (op B)) (v : bvec), wf v -> Forall op_ok ops ->
+  wf (fold_left apply_op ops v) /\
+  flat (fold_left apply_op ops v) = fold_left fa_apply (map abs_op ops) (flat v).
+Proof.
+  induction ops as [|o ops IH]; intros v Hv Hok.
+  - cbn. auto.
+  - inversion Hok; subst. cbn [fold_left map].
+    destruct (apply_op_correct v o Hv H1) as [H3 H4]. rewrite <- H4. apply IH; assumption.
+Qed.
+
+Lemma history_correct : forall ops : list (op B), Forall op_ok ops ->
+  wf (run_ops ops) /\ flat (run_ops ops) = fa_run (map abs_op ops).
+Proof.
+  intros ops H. unfold run_ops, ByteVecModel.run_ops, fa_run, ByteVecSpec.fa_run.
+  apply (fold_ops_correct ops empty wf_empty H).
+Qed.
+
+(* ------------------------------------------------------------------ unwrap *)
+
+Lemma defrag_go_concat : forall (l : list (seg B)) acc,
+  concat (map snd (defrag_go acc l)) = snd acc ++ concat (map snd l).
+Proof.
+  induction l as [|e r IH]; intros acc.
+  - cbn. reflexivity.
+  - cbn [defrag_go]. destruct (fst acc && fst e).
+    + rewrite IH. cbn [snd map concat]. rewrite app_assoc. reflexivity.
+    + cbn [map concat]. rewrite IH. reflexivity.
+Qed.
+
+Lemma defrag_concat : forall l : list (seg B), concat (map snd (defrag l)) = concat (map snd l).
+Proof.
+  intros [|e r]; [reflexivity|]. cbn [defrag]. rewrite defrag_go_concat. reflexivity.
+Qed.
+
+Lemma cunwrap_nest : forall t cs len,
+  cunwrap (Nest t cs len) =
+  if len =? 0 then (true, @nil B)
+  else match defrag (map (fun kc => cunwrap (snd kc)) cs) with
+       | [x] => x
+       | segs => (false, concat (map snd segs))
+       end.
+Proof. reflexivity. Qed.
+
+Lemma pick_snd : forall segs : list (seg B),
+  snd (match segs with [x] => x | _ => (false, concat (map snd segs)) end) = concat (map snd segs).
+Proof.
+  intros [|x [|y r]]; cbn; try reflexivity. rewrite app_nil_r. reflexivity.
+Qed.
+
+Lemma cunwrap_correct :
+  (forall c : chunk, wfc c -> snd (cunwrap c) = cflat c) /\
+  (forall b (cs : list (nat * chunk)) e, wfl b cs e ->
+      concat (map snd (map (fun kc => cunwrap (snd kc)) cs)) = flatl cs).
+Proof.
+  apply wf_mutind.
+  - intros. reflexivity.
+  - intros tag cs len Hw IH. rewrite cunwrap_nest, cflat_nest.
+    destruct (len =? 0) eqn:E.
+    + apply Nat.eqb_eq in E. subst len. pose proof (flatl_length _ _ _ Hw) as HL.
+      destruct (flatl cs); [reflexivity | discriminate].
+    + rewrite <- IH. rewrite <- (defrag_concat (map (fun kc => cunwrap (snd kc)) cs)).
+      destruct (defrag (map (fun kc => cunwrap (snd kc)) cs)) as [|x [|y r]];
+        cbn [snd map concat]; rewrite ?app_nil_r; reflexivity.
+  - intros. reflexivity.
+  - intros b c r e Hpos Hc IHc Hr IHr. cbn [map concat snd]. rewrite IHc, IHr, flatl_cons. reflexivity.
+Qed.
+
+Lemma unwrap_correct : forall v : bvec, wf v -> snd (unwrap v) = flat v.
+Proof.
+  intros v H. unfold unwrap. rewrite (proj1 cunwrap_correct); [reflexivity|]. constructor. exact H.
+Qed.
+
+Lemma get_word_correct : forall (v : bvec) off, wf v ->
+  snd (get_word B zero v off) = fa_word B zero (flat v) off.
+Proof.
+  intros v off H. unfold get_word, fa_word. destruct (bslice_correct v off (off + 32) H) as [H1 [H2 _]].
+  rewrite unwrap_correct by exact H1. exact H2.
+Qed.
+
+(* ------------------------------------------------------------------ the flat array itself:
+   pointwise reading of the specification (zero beyond the end, length = highest offset) *)
+
+Lemma nth_repeat' : forall (x : B) n i, nth i (repeat x n) x = x.
+Proof.
+  intros x n. induction n as [|n IH]; intros i; destruct i; cbn; auto.
+Qed.
+
+Lemma nth_zext : forall (l : list B) n i, nth i (l ++ zeros n) zero = nth i l zero.
+Proof.
+  intros l n i. destruct (Nat.lt_ge_cases i (length l)) as [H | H].
+  - apply app_nth1. exact H.
+  - rewrite app_nth2 by exact H. unfold zeros, ByteVecSpec.zeros. rewrite nth_repeat'.
+    symmetry. apply nth_overflow. exact H.
+Qed.
+
+Lemma fa_slice_nth : forall l a b i, i < b - a ->
+  nth i (fa_slice l a b) zero = nth (a + i) l zero.
+Proof.
+  intros l a b i H. unfold fa_slice, ByteVecSpec.fa_slice.
+  rewrite nth_firstn_lt by exact H. fold (zeros (b - a)). rewrite nth_zext. apply nth_skipn'.
+Qed.
+
+Lemma fa_set_byte_nth : forall l off x i,
+  nth i (fa_set_byte l off x) zero = if i =? off then x else nth i l zero.
+Proof.
+  intros l off x i. unfold fa_set_byte, ByteVecSpec.fa_set_byte, zext.
+  assert (HL : length (firstn off (l ++ ByteVecSpec.zeros B zero (off - length l))) = off).
+  { rewrite firstn_length, app_length. unfold ByteVecSpec.zeros. rewrite repeat_length. lia. }
+  destruct (i =? off) eqn:E.
+  - apply Nat.eqb_eq in E. subst i. rewrite app_nth2 by lia. rewrite HL, Nat.sub_diag. reflexivity.
+  - apply Nat.eqb_neq in E. destruct (Nat.lt_ge_cases i off) as [H | H].
+    + rewrite app_nth1 by lia. rewrite nth_firstn_lt by exact H. apply nth_zext.
+    + rewrite app_nth2 by lia. rewrite HL. destruct (i - off) as [|j] eqn:Ej; [lia|].
+      cbn [nth]. rewrite nth_skipn'. f_equal. lia.
+Qed.
+
+Lemma fa_set_byte_length : forall l off x,
+  length (fa_set_byte l off x) = Nat.max (length l) (off + 1).
+Proof.
+  intros l off x. unfold fa_set_byte, ByteVecSpec.fa_set_byte, zext.
+  rewrite app_length, firstn_length, app_length. cbn [length]. rewrite skipn_length.
+  unfold ByteVecSpec.zeros. rewrite repeat_length. lia.
+Qed.
+
+Lemma fa_set_slice_nth : forall l a b data l' i, a < b ->
+  fa_set_slice l a b data = Some l' ->
+  nth i l' zero = if (a <=? i) && (i <? b) then nth (i - a) data zero else nth i l zero.
+Proof.
+  intros l a b data l' i Hab H. unfold fa_set_slice, ByteVecSpec.fa_set_slice in H.
+  replace (a =? b) with false in H by (symmetry; apply Nat.eqb_neq; lia).
+  destruct ((b <? a) || negb (length data =? b - a)) eqn:E; [discriminate|].
+  apply orb_false_iff in E. destruct E as [_ E]. apply negb_false_iff in E. apply Nat.eqb_eq in E.
+  inversion H; subst l'; clear H. unfold zext.
+  assert (HL : length (firstn a (l ++ ByteVecSpec.zeros B zero (a - length l))) = a).
+  { rewrite firstn_length, app_length. unfold ByteVecSpec.zeros. rewrite repeat_length. lia. }
+  destruct (a <=? i) eqn:E1; cbn [andb].
+  - apply Nat.leb_le in E1. rewrite app_nth2 by lia. rewrite HL.
+    destruct (i <? b) eqn:E2.
+    + apply Nat.ltb_lt in E2. apply app_nth1. lia.
+    + apply Nat.ltb_ge in E2. rewrite app_nth2 by lia. rewrite nth_skipn'. f_equal. lia.
+  - apply Nat.leb_gt in E1. rewrite app_nth1 by lia. rewrite nth_firstn_lt by exact E1. apply nth_zext.
+Qed.
+
+Lemma fa_set_slice_length : forall l a b data l', a < b ->
+  fa_set_slice l a b data = Some l' -> length l' = Nat.max (length l) b.
+Proof.
+  intros l a b data l' Hab H. unfold fa_set_slice, ByteVecSpec.fa_set_slice in H.
+  replace (a =? b) with false in H by (symmetry; apply Nat.eqb_neq; lia).
+  destruct ((b <? a) || negb (length data =? b - a)) eqn:E; [discriminate|].
+  apply orb_false_iff in E. destruct E as [_ E]. apply negb_false_iff in E. apply Nat.eqb_eq in E.
+  inversion H; subst l'; clear H. unfold zext.
+  rewrite !app_length, firstn_length, app_length, skipn_length.
+  unfold ByteVecSpec.zeros. rewrite repeat_length. lia.
+Qed.
+
 End Proofs.
